@@ -138,36 +138,65 @@ def run(ctx):
     res.not_decided += ["getters return exactly the data supplied for every length; acceptance by the validator/decoder; arithmetic sufficiency of the size"]
 
     # ---- R1: generic Payload::setData<Header> instantiations and the forwarding builders
+    def stores_pair(f, hdr):
+        """f resizes its buffer to sizeof(hdr) + n and copies exactly n bytes from its data parameter
+        to data() + sizeof(hdr), in that order, on every path (n = the length parameter)."""
+        from rules.c02 import prov
+        from rules.decoder_rules import _linear
+        hsize = fb.record(hdr)["size"]
+        datap, size_p = f.params[0]["decl"], f.params[1]["decl"]
+        rs = [(kind, c, ln) for _, kind, c, ln in facts.vector_sizing(f)]
+        cp = [(c, facts.copy_args(c)) for c in f.calls() if facts.copy_args(c)]
+        if len(rs) != 1 or len(cp) != 1 or rs[0][0] != "set":
+            return False, "expected one resize and one copy, found %d / %d" % (len(rs), len(cp))
+
+        def syms(x):
+            return "n" if x.get("k") == "ref" and x.get("decl") == size_p else None
+        form = _linear(f, rs[0][2], syms)
+        okr = form is not None and form.get("n") == 1 and form.get(1, 0) == hsize and set(form) <= {"n", 1}
+        c, (dst, src, ln) = cp[0]
+        lform = _linear(f, ln, syms) if ln is not None else None
+        oklen = lform is not None and lform.get("n") == 1 and lform.get(1, 0) == 0 and set(lform) <= {"n", 1}
+        pd, ps = prov(f, dst), prov(f, src)
+        okdst = pd.kind == "vec" and pd.off == hsize and canon(strip_all_casts(rs[0][1].get("obj"))) == pd.base
+        oksrc = ps.kind == "param" and ps.base == datap and ps.off == 0
+        cfg = f.cfg
+        okord = cfg.pos_of[rs[0][1]["id"]] < cfg.pos_of[c["id"]] if cfg.block_for(rs[0][1]) == cfg.block_for(c) else \
+            cfg.dominates(cfg.block_for(rs[0][1]), cfg.block_for(c))
+        allp = paths.enumerate_paths(f)
+        every = all(any(x["id"] == c["id"] for x in q.calls()) and any(x["id"] == rs[0][1]["id"] for x in q.calls()) for q in allp)
+        why = "resize=sizeof(Header)+n:%s copy length=n:%s destination=data()+sizeof(Header):%s source=data parameter:%s resize first:%s on every path:%s" % (
+            okr, oklen, okdst, oksrc, okord, every)
+        return okr and oklen and okdst and oksrc and okord and every, why
+
     for base in (NS + "Payload::setData", "TECMP::Payload::setData"):
         inst = [f for f in fb.fns(base) if not f.raw.get("templated")]
         if not inst:
             raise Broken("no instantiation of %s" % base)
         for f in inst:
             hdr = (f.raw.get("targs") or ["?"])[0]
-            rs = list(f.calls("std::vector::resize"))
-            cp = [c for c in f.calls() if callee_name(c) in ("memcpy", "std::memcpy", "std::copy_n")]
-            ok = len(rs) == 1 and len(cp) == 1
-            if ok:
-                size_p = f.params[1]["decl"]
-                ra = strip_all_casts(rs[0]["args"][0])
-                okr = ra.get("k") == "bin" and ra.get("op") == "+" and {canon(strip_all_casts(ra["l"])), canon(strip_all_casts(ra["r"]))} == {"sizeof(%s)" % hdr, size_p}
-                oklen = canon(strip_all_casts(cp[0]["args"][2])) == size_p
-                dst = strip_all_casts(cp[0]["args"][0])
-                okdst = dst.get("k") == "bin" and dst.get("op") == "+" and "sizeof(%s)" % hdr in (canon(strip_all_casts(dst["l"])), canon(strip_all_casts(dst["r"])))
-                cfg = f.cfg
-                okord = cfg.pos_of[rs[0]["id"]] < cfg.pos_of[cp[0]["id"]]
-                ok = okr and oklen and okdst and okord
+            ok, why = stores_pair(f, hdr) if hdr in fb.records else (False, "unknown header type " + hdr)
             res.check(ok, "C13-R1", "setData<%s>" % hdr.replace("ASAM::CMP::", ""), f.loc, "resize(sizeof(Header) + n); copy n bytes to data() + sizeof(Header)",
-                      "Payload::setData<%s> does not resize to sizeof(Header)+n and copy exactly n bytes behind the header" % hdr)
+                      "Payload::setData<%s> does not resize to sizeof(Header)+n and copy exactly n bytes behind the header (%s)" % (hdr, why))
+    from cmpverif.accessors import header_view_record
     for cls, setters in SIMPLE:
         f = fb.fn(cls + "::setData", 2)
         fw = [c for c in f.calls() if (callee_name(c) or "").endswith("Payload::setData")]
         lenp = f.params[1]["decl"]
-        ok = len(fw) == 1 and [canon(strip_all_casts(a)) for a in fw[0]["args"]] == [f.params[0]["decl"], lenp]
-        res.check(ok, "C13-R1", "%s::setData:forward" % cls.replace(NS, ""), f.loc, "forwards (data, length) unchanged to Payload::setData<Header>",
-                  "%s::setData does not forward its data pointer and length unchanged" % cls)
+        hdr = header_view_record(fb, cls)
         allp = paths.enumerate_paths(f)
-        uncond = all(any((callee_name(x) or "").endswith("Payload::setData") for x in q.calls()) for q in allp)
+        if fw:
+            g = fb.resolve_call(fw[0])
+            ok = len(fw) == 1 and [canon(strip_all_casts(a)) for a in fw[0]["args"]] == [f.params[0]["decl"], lenp] and \
+                g is not None and (g.raw.get("targs") or ["?"])[0] == hdr
+            res.check(ok, "C13-R1", "%s::setData:forward" % cls.replace(NS, ""), f.loc, "forwards (data, length) unchanged to Payload::setData<%s>" % hdr.split("::", 2)[-1],
+                      "%s::setData does not forward its data pointer and length unchanged to Payload::setData<its own Header>" % cls)
+            uncond = all(any((callee_name(x) or "").endswith("Payload::setData") for x in q.calls()) for q in allp)
+        else:
+            ok, why = stores_pair(f, hdr)
+            res.check(ok, "C13-R1", "%s::setData:forward" % cls.replace(NS, ""), f.loc, "stores (data, length) itself: resize(sizeof(Header) + n), copy n bytes behind the header",
+                      "%s::setData neither forwards to Payload::setData<Header> nor stores the pair itself (%s)" % (cls, why))
+            uncond = ok
         res.check(uncond, "C13-R1", "%s::setData:every-path" % cls.replace(NS, ""), f.loc, "the buffer is resized and filled on every path (%d)" % len(allp),
                   "%s::setData skips the resize/copy on some path while the header length is still updated: the buffer keeps its previous "
                   "size and content" % cls)
